@@ -12,6 +12,7 @@
 import Fir.Model.Resample
 import Fir.Props.C10
 import Fir.Proofs.FixedLemmas
+import Fir.Proofs.ImageLemmas
 
 namespace Fir.C18
 open Fir
@@ -56,6 +57,68 @@ theorem madd_epi16_exact (a a' k k' : Int) (ha : 0 ≤ a ∧ a ≤ 255) (ha' : 0
     (hk : -32768 ≤ k ∧ k ≤ 32767) (hk' : -32768 ≤ k' ∧ k' ≤ 32767) :
     -(2 ^ 31 : Int) < a * k + a' * k' ∧ a * k + a' * k' < 2 ^ 31 :=
   Fir.Proofs.madd_epi16_exact a a' k k' ha ha' hk hk'
+
+/-! ### whole images (`Fir.horizPass` / `Fir.vertPass` of the executable model) -/
+
+/-- the i32 accumulator of an 8-bit window cannot overflow inside the documented head-room:
+    `255·Σ|kᵢ| + 2^(p−1) < 2^31` -/
+theorem accOK8_of_abs_sum (ks xs : List Int) (p : Nat) (hx : ∀ x ∈ xs, 0 ≤ x ∧ x ≤ 255)
+    (h : 255 * (ks.map (|·|)).sum + 2 ^ (p - 1) < 2 ^ 31) : Fir.Proofs.AccOK8 ks xs p :=
+  Fir.Proofs.accOK8_of_abs_sum ks xs p hx h
+
+theorem accOK16_of_abs_sum (ks xs : List Int) (p : Nat) (hx : ∀ x ∈ xs, 0 ≤ x ∧ x ≤ 65535)
+    (h : 65535 * (ks.map (|·|)).sum + 2 ^ (p - 1) < 2 ^ 63) : Fir.Proofs.AccOK16 ks xs p :=
+  Fir.Proofs.accOK16_of_abs_sum ks xs p hx h
+
+open Fir.Proofs in
+/-- order preservation of a whole horizontal 8-bit pass with non-negative coefficients: if `src ≤ src'`
+    wherever the pass reads, the result of `src` is ≤ the result of `src'` at every component -/
+theorem horizPass_monotone_u8 (src src' : Img) (dstW dstH offset : Nat) (c : Coeffs) (hn : src.n = src'.n)
+    (hp : (qOf .u8 c).precision < 32)
+    (hk : ∀ x, x < dstW → ∀ k ∈ (chunkAt .u8 c x).2.toList, 0 ≤ k)
+    (hle : ∀ x y ch j, src.get ((chunkAt .u8 c x).1 + j) (offset + y) ch ≤ src'.get ((chunkAt .u8 c x).1 + j) (offset + y) ch)
+    (hacc : ∀ x y ch, x < dstW → y < dstH → ch < src.n →
+      AccOK8 (chunkAt .u8 c x).2.toList (hWindow .u8 src offset c x y ch) (qOf .u8 c).precision ∧
+      AccOK8 (chunkAt .u8 c x).2.toList (hWindow .u8 src' offset c x y ch) (qOf .u8 c).precision)
+    (x y ch : Nat) (hx : x < dstW) (hy : y < dstH) (hc : ch < src.n) :
+    (horizPass .u8 src dstW dstH offset c).get x y ch ≤ (horizPass .u8 src' dstW dstH offset c).get x y ch :=
+  Fir.Proofs.horizPass_monotone_u8 src src' dstW dstH offset c hn hp hk hle hacc x y ch hx hy hc
+
+open Fir.Proofs in
+theorem vertPass_monotone_u8 (src src' : Img) (dstW dstH offset : Nat) (c : Coeffs) (hn : src.n = src'.n)
+    (hp : (qOf .u8 c).precision < 32)
+    (hk : ∀ y, y < dstH → ∀ k ∈ (chunkAt .u8 c y).2.toList, 0 ≤ k)
+    (hle : ∀ x y ch j, src.get (offset + x) ((chunkAt .u8 c y).1 + j) ch ≤ src'.get (offset + x) ((chunkAt .u8 c y).1 + j) ch)
+    (hacc : ∀ x y ch, x < dstW → y < dstH → ch < src.n →
+      AccOK8 (chunkAt .u8 c y).2.toList (vWindow .u8 src offset c x y ch) (qOf .u8 c).precision ∧
+      AccOK8 (chunkAt .u8 c y).2.toList (vWindow .u8 src' offset c x y ch) (qOf .u8 c).precision)
+    (x y ch : Nat) (hx : x < dstW) (hy : y < dstH) (hc : ch < src.n) :
+    (vertPass .u8 src dstW dstH offset c).get x y ch ≤ (vertPass .u8 src' dstW dstH offset c).get x y ch :=
+  Fir.Proofs.vertPass_monotone_u8 src src' dstW dstH offset c hn hp hk hle hacc x y ch hx hy hc
+
+open Fir.Proofs in
+theorem horizPass_monotone_u16 (src src' : Img) (dstW dstH offset : Nat) (c : Coeffs) (hn : src.n = src'.n)
+    (hp : (qOf .u16 c).precision < 64)
+    (hk : ∀ x, x < dstW → ∀ k ∈ (chunkAt .u16 c x).2.toList, 0 ≤ k)
+    (hle : ∀ x y ch j, src.get ((chunkAt .u16 c x).1 + j) (offset + y) ch ≤ src'.get ((chunkAt .u16 c x).1 + j) (offset + y) ch)
+    (hacc : ∀ x y ch, x < dstW → y < dstH → ch < src.n →
+      AccOK16 (chunkAt .u16 c x).2.toList (hWindow .u16 src offset c x y ch) (qOf .u16 c).precision ∧
+      AccOK16 (chunkAt .u16 c x).2.toList (hWindow .u16 src' offset c x y ch) (qOf .u16 c).precision)
+    (x y ch : Nat) (hx : x < dstW) (hy : y < dstH) (hc : ch < src.n) :
+    (horizPass .u16 src dstW dstH offset c).get x y ch ≤ (horizPass .u16 src' dstW dstH offset c).get x y ch :=
+  Fir.Proofs.horizPass_monotone_u16 src src' dstW dstH offset c hn hp hk hle hacc x y ch hx hy hc
+
+open Fir.Proofs in
+theorem vertPass_monotone_u16 (src src' : Img) (dstW dstH offset : Nat) (c : Coeffs) (hn : src.n = src'.n)
+    (hp : (qOf .u16 c).precision < 64)
+    (hk : ∀ y, y < dstH → ∀ k ∈ (chunkAt .u16 c y).2.toList, 0 ≤ k)
+    (hle : ∀ x y ch j, src.get (offset + x) ((chunkAt .u16 c y).1 + j) ch ≤ src'.get (offset + x) ((chunkAt .u16 c y).1 + j) ch)
+    (hacc : ∀ x y ch, x < dstW → y < dstH → ch < src.n →
+      AccOK16 (chunkAt .u16 c y).2.toList (vWindow .u16 src offset c x y ch) (qOf .u16 c).precision ∧
+      AccOK16 (chunkAt .u16 c y).2.toList (vWindow .u16 src' offset c x y ch) (qOf .u16 c).precision)
+    (x y ch : Nat) (hx : x < dstW) (hy : y < dstH) (hc : ch < src.n) :
+    (vertPass .u16 src dstW dstH offset c).get x y ch ≤ (vertPass .u16 src' dstW dstH offset c).get x y ch :=
+  Fir.Proofs.vertPass_monotone_u16 src src' dstW dstH offset c hn hp hk hle hacc x y ch hx hy hc
 
 /-! ### non-vacuity -/
 example : passInt .u8 [8192, 8192] [10, 20] 14 ≤ passInt .u8 [8192, 8192] [10, 21] 14 := by decide
